@@ -45,7 +45,7 @@ pub fn run_case(c: &Sx) -> Sx {
 #[cfg(feature = "verif")]
 pub fn hooks_take() -> Sx {
     let h = crate::verif_hooks::take();
-    l(vec![a("hooks"), n(h[0] as usize), n(h[1] as usize), n(h[2] as usize), n(h[3] as usize)])
+    l(vec![a("hooks"), n(h[0] as usize), n(h[1] as usize), n(h[2] as usize), n(h[3] as usize), n(h[4] as usize)])
 }
 #[cfg(not(feature = "verif"))]
 pub fn hooks_take() -> Sx {
